@@ -52,7 +52,7 @@ def tree_hash(extra=()):
 
 
 CFLAGS = ['-O1', '-g', '-fno-omit-frame-pointer', '-fsanitize=address,undefined',
-          '-fno-sanitize-recover=all', '-I' + REPO, '-I' + REPO + '/src', '-DHAVE_CONFIG_H', '-D' + GUARD,
+          '-fno-sanitize-recover=all', '-fno-sanitize=nonnull-attribute', '-I' + REPO, '-I' + REPO + '/src', '-DHAVE_CONFIG_H', '-D' + GUARD,
           '-Wno-unused-result']
 
 
@@ -60,7 +60,7 @@ def build_c():
     """returns (path to harness binary, build dir). Rebuilds when any source differs."""
     os.makedirs(CACHE, exist_ok=True)
     hfiles = sorted(glob.glob(VERIF + '/harness/*.[ch]')) + [VERIF + '/gen/conv2_table.inc']
-    key = tree_hash(hfiles)
+    key = tree_hash(hfiles) + hashlib.sha256(' '.join(CFLAGS).encode()).hexdigest()[:6]
     d = os.path.join(CACHE, 'c-' + key)
     exe = os.path.join(d, 'vh')
     lock = open(os.path.join(CACHE, 'c.lock'), 'w')
@@ -381,3 +381,71 @@ class Check:
             self.pid, self.tier, self.discharged, self.obligations, self.evaluations, len(self.distinct), wall,
             'FAIL' if self.violations else 'pass'))
         return 1 if self.violations else 0
+
+
+# --------------------------------------------------------------------------- history correspondence
+
+def same_line(a, b, tol=0.0):
+    """exact equality, or (tol > 0) token-wise with hex doubles compared to relative tolerance"""
+    if a == b:
+        return True
+    if tol <= 0:
+        return False
+    ta, tb = a.split(), b.split()
+    if len(ta) != len(tb):
+        return False
+    import math
+    vals = []
+    for x, y in zip(ta, tb):
+        if x == y:
+            continue
+        if len(x) == 16 and len(y) == 16:
+            try:
+                vals.append((h2d(x), h2d(y)))
+                continue
+            except ValueError:
+                return False
+        return False
+    scale = max([1e-300] + [abs(p) for p, q in vals if p == p and abs(p) != float('inf')])
+    for p, q in vals:
+        if p != p and q != q:
+            continue
+        if p == q:
+            continue
+        if not abs(p - q) <= tol * max(scale, abs(p)):
+            return False
+    return True
+
+
+def first_diff(xs, ys, tol=0.0):
+    for i, (a, b) in enumerate(zip(xs, ys)):
+        if not same_line(a, b, tol):
+            return i
+    if len(xs) != len(ys):
+        return min(len(xs), len(ys))
+    return None
+
+
+def shrink(lines, failing, budget=120):
+    """greedy delta debugging: remove chunks while `failing(lines)` stays true"""
+    cur = list(lines)
+    n = 2
+    tries = 0
+    while len(cur) >= 2 and tries < budget:
+        chunk = max(1, len(cur) // n)
+        removed = False
+        for i in range(0, len(cur), chunk):
+            cand = cur[:i] + cur[i + chunk:]
+            tries += 1
+            if cand and failing(cand):
+                cur = cand
+                n = max(n - 1, 2)
+                removed = True
+                break
+            if tries >= budget:
+                break
+        if not removed:
+            if chunk == 1:
+                break
+            n = min(n * 2, len(cur))
+    return cur
